@@ -207,17 +207,25 @@ def consumer_check(decoded):
         def on_unhandled(self, rec):
             self.seen.append(("u", id(rec)))
 
-    kind = {D["EvA"]: "a", D["EvB"]: "b", D["EvC"]: "u"}
+    class Derived(Cons):          # inherits on_a, overrides the EvB handler, adds one for EvC
+        @handles(D["EvB"])
+        def on_b2(self, rec):
+            self.seen.append(("b2", id(rec)))
+
+        @handles(D["EvC"])
+        def on_c(self, rec):
+            self.seen.append(("c", id(rec)))
+
     orders = [list(decoded), list(reversed(decoded)), decoded[1::2] + decoded[0::2]]
-    for order in orders:
-        c = Cons()
-        c.run(iter(order))
-        exp = [(kind[type(r.event)], id(r)) for r in sorted(order, key=lambda r: r.cycle)]
-        if c.seen != exp:
-            return f"consumer: dispatch order/handlers {[(k) for k, _ in c.seen]} expected {[k for k, _ in exp]}"
-        cycles = [r.cycle for r in sorted(order, key=lambda r: r.cycle)]
-        if cycles != sorted(cycles):
-            return "consumer: cycles not monotonic"
+    for cls, kind in ((Cons, {D["EvA"]: "a", D["EvB"]: "b", D["EvC"]: "u"}),
+                      (Derived, {D["EvA"]: "a", D["EvB"]: "b2", D["EvC"]: "c"})):
+        for order in orders:
+            c = cls()
+            c.run(iter(order))
+            exp = [(kind[type(r.event)], id(r)) for r in sorted(order, key=lambda r: r.cycle)]
+            if c.seen != exp:
+                return (f"consumer: {cls.__name__} dispatched {[k for k, _ in c.seen]}, expected {[k for k, _ in exp]} "
+                        f"(stable in cycle order, unhandled -> on_unhandled, subclass handlers override)")
     return None
 
 
